@@ -524,7 +524,9 @@ fn ty() -> impl Strategy<Value = Ty> {
 }
 
 fn word() -> impl Strategy<Value = String> {
-    prop_oneof![4 => "[!-~]{1,8}", 1 => "[!-~]{9,40}", 1 => "-[a-z]{0,3}", 1 => "[0-9]{1,5}[a-z]"]
+    // long words (beyond the 40 characters of the longest integer token) leave bytes in the reader's buffer that a later, shorter
+    // refill does not overwrite; digits make stale bytes look like a continuation of a number
+    prop_oneof![8 => "[!-~]{1,8}", 2 => "[!-~]{9,40}", 2 => "-[a-z]{0,3}", 2 => "[0-9]{1,5}[a-z]", 1 => "[0-9]{41,90}", 1 => "[!-~]{41,120}"]
 }
 
 fn sep() -> impl Strategy<Value = String> {
